@@ -254,4 +254,4 @@ def _obligations():
 
 
 def obligations():
-    return _obligations() + [labels_obligation("C18"), effects_obligation("C18")]
+    return _obligations() + [labels_obligation("C18"), selectors_obligation("C18"), effects_obligation("C18")]
